@@ -38,7 +38,7 @@ def main():
         parts = 8
         for is_set in (True, False):
             for p in range(parts):
-                plan.append(dict(impl='c', is_set=is_set, leaf=lf, internal=it, dump=fn, events=evfn, indices=sorted(idx[p::parts])))
+                plan.append(dict(impl='c', is_set=is_set, leaf=lf, internal=it, dump=fn, events=evfn, indices=sorted(idx[p::parts]), query_every=4 if quick else 1))
     results = jobs.run_jobs('harness.workers.pins_worker', plan)
     for job, res, err in results:
         ident = dict(impl=job['impl'], is_set=job['is_set'], sizes=[job['leaf'], job['internal']])
